@@ -5,7 +5,7 @@
    Only statements, `exact`, Print Assumptions and non-vacuity examples here. *)
 From Coq Require Import ZArith List Bool.
 From PCB Require Import lib.Result lib.PyInt gen.Gen_state model.Crc32 model.StateFile model.Resume
-  proofs.Crc32_proofs proofs.StateFile_proofs proofs.Resume_proofs.
+  model.ReopenFile proofs.Crc32_proofs proofs.StateFile_proofs proofs.Resume_proofs proofs.ReopenFile_proofs.
 Import ListNotations.
 Open Scope Z_scope.
 
@@ -113,6 +113,27 @@ Definition C40_goto_code : list Z :=
 Example C40_resume_old_refuted :
   setstate_pos_old C40_goto_code false 0 24 = 10%nat /\ setstate_pos C40_goto_code false false 0 24 = 24%nat.
 Proof. split; vm_compute; reflexivity. Qed.
+
+(* ---------------- open files ---------------- *)
+
+(* state.unpickle_file (hand model, tied by correspondence): a file open for OUTPUT or APPEND when the session
+   was pickled (stream at its end, contents c of ANY length including empty) is re-opened with exactly the
+   contents c and at its end, whatever was appended to it afterwards (the EOF byte TextFile.close writes when the
+   suspended session shuts down): the resumed program's writes continue where the suspended one stopped *)
+Theorem C40_reopened_file_restored : forall has_w has_a c junk, xorb has_w has_a = true ->
+  reopen has_w has_a (zlen c) (c ++ junk) = (c, zlen c).
+Proof. exact reopen_written_file. Qed.
+Print Assumptions C40_reopened_file_restored.
+
+(* INPUT / RANDOM files: contents untouched, stream back at its position *)
+Theorem C40_reopened_read_file : forall pos disk, 0 <= pos -> reopen false false pos disk = (disk, pos).
+Proof. exact reopen_read_file. Qed.
+Print Assumptions C40_reopened_read_file.
+
+(* D40b and its boundary: APPEND file still empty at suspension, EOF byte written at shutdown *)
+Example C40_reopened_empty_append : reopen false true 0 [26] = ([], 0) /\
+  reopen false true 3 [97; 13; 10; 26] = ([97; 13; 10], 3) /\ reopen true false 0 [26] = ([], 0).
+Proof. repeat split. Qed.
 
 (* ---------------- non-vacuity ---------------- *)
 Example C40_nonvacuous_file :
